@@ -89,6 +89,13 @@ Theorem C33_pack_ignores_prior_flags :
 Proof. exact pack_obj_ignores_prior. Qed.
 Print Assumptions C33_pack_ignores_prior_flags.
 
+(* nor on whether the object was rendered (str / repr / asbytes, a listing entry's longname) before *)
+Theorem C33_pack_after_render :
+  forall (prior : Z) (a : attrs),
+    pack_obj (fst (render_obj (prior, a))) (snd (render_obj (prior, a))) = (pack a, flags_of a).
+Proof. exact pack_after_render. Qed.
+Print Assumptions C33_pack_after_render.
+
 (* hence the round trip for an object with any history (decoded or encoded before, then edited) *)
 Theorem C33_roundtrip_any_history :
   forall (prior : Z) (a : attrs) (bs rest : list Z),
